@@ -121,17 +121,47 @@ def run_xlate():
         facts = json.load(open(facts_path))
     if rc != 0 and not facts:
         return False, {}, "translator failed:\n" + out
-    # sync: remove stale generated files, rewrite changed ones only
+    # sync: rewrite changed files only.  A module that was NOT regenerated this run (its extractor did not recognise the source)
+    # is kept as it was - every domain is linked into the one driver, so deleting it would break the build of all twenty checks -
+    # but it is recorded as stale: every check whose theorems or correspondence import it reports it (Ctx.stale_obligations)
     os.makedirs(GEN_DIR, exist_ok=True)
     new = set(os.listdir(tmp))
-    for f in os.listdir(GEN_DIR):
-        if f.endswith(".lean") and f not in new:
-            os.remove(os.path.join(GEN_DIR, f))
+    facts["stale_gen"] = sorted(f[:-5] for f in os.listdir(GEN_DIR) if f.endswith(".lean") and f not in new)
     for f in new:
         a, b = os.path.join(tmp, f), os.path.join(GEN_DIR, f)
         if not os.path.exists(b) or open(a, "rb").read() != open(b, "rb").read():
             shutil.copyfile(a, b)
     return True, facts, out
+
+
+def lean_import_closure(modules):
+    """Transitive imports (within this project) of the given Lean modules, by reading the `import` lines."""
+    seen, todo = set(), list(modules)
+    while todo:
+        m = todo.pop()
+        if m in seen:
+            continue
+        seen.add(m)
+        path = os.path.join(LEAN, *m.split(".")) + ".lean"
+        if not os.path.exists(path):
+            continue
+        for line in open(path, encoding="utf-8", errors="replace"):
+            line = line.strip()
+            if line.startswith("import "):
+                for dep in line[7:].split():
+                    if dep.startswith(("WtfModel.", "Driver")) and dep not in seen:
+                        todo.append(dep)
+    return seen
+
+
+def driver_module_of(domain):
+    """Driver module that implements a protocol domain (from the match arms of Driver/Dispatch.lean)."""
+    try:
+        src = open(os.path.join(LEAN, "Driver", "Dispatch.lean")).read()
+    except OSError:
+        return None
+    m = re.search(r'\|\s*"%s"\s*=>\s*(\w+)\.runCase' % re.escape(domain), src)
+    return "Driver." + m.group(1) if m else None
 
 
 # ---------------------------------------------------------------------------------------------
@@ -477,6 +507,7 @@ class Ctx:
         with BuildLock():
             ok, facts, out = run_xlate()
         self.facts = facts.get("facts", {})
+        self.stale_gen = set(facts.get("stale_gen", []))
         self.oblige("translator:run", "translator", ok, out)
         asserts = {a["site"]: a for a in facts.get("assertions", [])}
         # the regenerated tables every run of the SearchUniversal model reads: when one of them is not recognised the model is
@@ -491,9 +522,23 @@ class Ctx:
                 self.oblige("translator:" + site, "translator", a.get("ok", False), a.get("msg", ""))
         return ok
 
+    def stale_obligations(self, modules, what):
+        """A regenerated module that this run could not regenerate and that `modules` import: the tie is broken there."""
+        stale = getattr(self, "stale_gen", set())
+        if not stale:
+            return
+        done = getattr(self, "_stale_reported", set())
+        for m in sorted(lean_import_closure(modules)):
+            if m.startswith("WtfModel.Gen.") and m[len("WtfModel.Gen."):] in stale and (m, what) not in done:
+                done.add((m, what))
+                self.oblige("translator:regenerated-module-stale:%s(%s)" % (m, what), "translator", False,
+                            "%s was not regenerated from the current source (its extractor did not recognise the code); %s import it" % (m, what))
+        self._stale_reported = done
+
     def stage_prove(self, theorems, extra_targets=()):
         pid = self.pid
         targets = ["WtfModel.Props." + pid, "WtfModel.Audit." + pid] + list(extra_targets)
+        self.stale_obligations(targets, "the property theorems")
         with BuildLock():
             ok, out = lake_build(targets)
             self.build_log = out
@@ -539,6 +584,8 @@ class Ctx:
         seed = self.seed + seed_offset
         r.gen(domain, n, seed, self.tier, args)
         r.exec_impl()
+        if model and driver_module_of(domain):
+            self.stale_obligations([driver_module_of(domain)], "the model of domain " + domain)
         if model and not getattr(self, "driver_ok", True):
             model = False
             self.oblige("correspondence:%s" % name, "correspondence", False,
